@@ -123,6 +123,23 @@ def truthOrd (inp : RunInput) (nTasks : Nat) : List Ev → Bool
   | [] => true
   | e :: post => truthOK inp nTasks e post && truthOrd inp nTasks post
 
+/-- the part of "the final report is the true one" that does not involve the dependencies: the report agrees with
+    the oracle of the case (what `get_status` answers, the ignore mark, what the action does, getargs) -/
+def truthLite (inp : RunInput) (e : Ev) (post : List Ev) : Bool :=
+  match e with
+  | .success n => inp.outcome n == .ok
+  | .failure n .failed => inp.outcome n == .failed
+  | .failure n .error => inp.outcome n == .error
+  | .failure n .depErr =>
+    if post.any (Ev.isStartOf n) then inp.outcome n == .saveErr
+    else inp.statusOf n == .error || !inp.argsOk n
+  | .skipUtd n => effStatus inp n == .utd && !inp.ignored n
+  | _ => true
+
+def truthLiteOrd (inp : RunInput) : List Ev → Bool
+  | [] => true
+  | e :: post => truthLite inp e post && truthLiteOrd inp post
+
 /-- a task whose actions ran to their end in a completed, not aborted part of the run is reported: every `end t` is
     followed by a final report of `t` (only checked on traces that end with `complete` and exit code ≤ 2) -/
 def finReported (nTasks : Nat) (tr : List Ev) : Bool :=
